@@ -97,4 +97,40 @@ Degenerate(d, tb, x) ==
 UniqueWitness(d, tb, x) ==
   /\ \A r \in 0..(N - 1), b \in 1..NB(d) : Cardinality(HSols(d, tb, x, r, b)) = 1
   /\ \A r \in 0..(N - 1) : Cardinality(ZReach(d, tb, x, r)) <= 1
+
+(* ---- layout of the auxiliary (helper / Z) columns of a STARK with several lookups --------- *)
+(* nh[l] = Lookup::num_helper_columns of lookup l (helper batches + the Z column), C = num_challenges.   *)
+(* Both sides are transcribed as the loops of the code: the position at which the block of               *)
+(* (lookup l, challenge c) starts is what the loop counter holds when the iteration (l, c) begins.       *)
+RECURSIVE SumNh(_, _)
+SumNh(nh, k) == IF k = 0 THEN 0 ELSE nh[k] + SumNh(nh, k - 1)
+\* prover.rs `prove_with_commitment`:
+\*   for lookup in &lookups { for &challenge in challenges { columns.extend(lookup_helper_columns(..)) } }
+\* (mutant "prover_challenge_major": the two loops exchanged)
+RECURSIVE ProverStart(_, _, _, _)
+ProverStart(nh, C, l, c) ==
+  IF MUT = "prover_challenge_major"
+  THEN IF l = 1 /\ c = 1 THEN 0
+       ELSE IF l > 1 THEN ProverStart(nh, C, l - 1, c) + nh[l - 1]
+       ELSE ProverStart(nh, C, Len(nh), c - 1) + nh[Len(nh)]
+  ELSE IF l = 1 /\ c = 1 THEN 0
+       ELSE IF c > 1 THEN ProverStart(nh, C, l, c - 1) + nh[l]
+       ELSE ProverStart(nh, C, l - 1, C) + nh[l - 1]
+\* lookup.rs `eval_packed_lookups_generic` (and `eval_ext_lookups_circuit`):
+\*   start = 0; for lookup in lookups { for &challenge in challenges { helpers = [start, start+nh-1), z = start+nh-1; start += nh } }
+RECURSIVE EvalStart(_, _, _, _)
+EvalStart(nh, C, l, c) ==
+  IF l = 1 /\ c = 1 THEN 0
+  ELSE IF c > 1 THEN EvalStart(nh, C, l, c - 1) + nh[l]
+  ELSE EvalStart(nh, C, l - 1, C) + nh[l - 1]
+\* column index of auxiliary column h (1..nh[l]; the last one is Z) of (lookup l, challenge c)
+ProverIndex(nh, C, l, c, h) == ProverStart(nh, C, l, c) + h - 1
+EvalIndex(nh, C, l, c, h) == EvalStart(nh, C, l, c) + h - 1
+Slots(nh, C) == {lch \in (1..Len(nh)) \X (1..C) \X (1..4) : lch[3] <= nh[lch[1]]}
+\* the evaluator reads, for every (lookup, challenge, helper), the column the prover wrote for it; the columns
+\* are exactly 0 .. num_lookup_helper_columns - 1 (= C * sum nh), each used once
+LayoutEq(nh, C) ==
+  /\ \A x \in Slots(nh, C) : ProverIndex(nh, C, x[1], x[2], x[3]) = EvalIndex(nh, C, x[1], x[2], x[3])
+  /\ {EvalIndex(nh, C, x[1], x[2], x[3]) : x \in Slots(nh, C)} = 0..(C * SumNh(nh, Len(nh)) - 1)
+  /\ Cardinality(Slots(nh, C)) = C * SumNh(nh, Len(nh))
 =============================================================================
